@@ -5,9 +5,12 @@
 pub broadcast proof fn axiom_string_ext(a: String, b: String)
     ensures #![trigger a@, b@] a@ == b@ ==> a == b,
 {}
-// `&String == &String` goes through the blanket `impl PartialEq<&B> for &A`, which delegates to A == B
-pub assume_specification<A: PartialEq<B>, B> [<&A as PartialEq<&B>>::eq] (a: &&A, b: &&B) -> (r: bool)
-    ensures call_ensures(<A as PartialEq<B>>::eq, (*a, *b), r);
+// `&String == &String` goes through the blanket `impl PartialEq<&B> for &A` (no vstd spec, and its
+// early-bound lifetimes cannot be matched by assume_specification): shim with the same body.
+#[verifier::external_body]
+pub fn vx_string_ref_eq(a: &String, b: &String) -> (r: bool)
+    ensures r == (a@ == b@),
+{ a == b }
 
 pub uninterp spec fn lower(s: Seq<char>) -> Seq<char>;
 #[verifier::external_body]
